@@ -15,20 +15,27 @@ use refmodel::spec::Decaf;
 /// targets for the inner argument x of sqrt_ratio_zeta(1, x): 1/x = g^e * h, i.e. x = (g^e h)^-1
 pub fn targets(dc: &Decaf, quick: bool) -> Vec<(BigUint, u64)> {
     let f = dc.f();
-    let g = f.pow(&dc.zeta, &f.t);
-    let exps: Vec<u64> = {
+    // base gamma with gamma^M = (zeta^M)^-1, so that for ratio = gamma^e * h the table algorithm's
+    // t equals e (c09::two_sylow_base); the callers pass x = 1/ratio as the denominator
+    let g = c09::two_sylow_base(f, &dc.zeta);
+    // (exponent, number of odd-order multipliers): a single target value has a preimage under
+    // the rational maps solved below only with probability ~1/3, so the few SPECIAL exponents
+    // (all-ones, roots of unity, low/high ones, repeated digits, e = 0) get several multipliers
+    let exps: Vec<(u64, usize)> = {
         let all = c09::exponents(quick);
-        // one-digit patterns, roots of unity, all/low/high ones, repeated digits; from the
-        // two-digit family every 7th (quick) / every 3rd member
+        // one-digit patterns; from the two-digit family every 7th (quick) / every 3rd member
         let step = if quick { 7 } else { 3 };
         let mut k = 0usize;
-        all.into_iter().filter(|(_, lab)| { if *lab == "two-digits" { k += 1; k % step == 0 } else { true } }).map(|x| x.0).collect()
+        all.into_iter()
+            .filter(|(_, lab)| { if *lab == "two-digits" { k += 1; k % step == 0 } else { true } })
+            .map(|(e, lab)| (e, if ["two-digits", "one-digit", "one-window", "halved-one-digit"].contains(&lab) { 1 } else { 6 }))
+            .collect()
     };
-    let h = f.pow(&u(0x1234567), &(BigUint::one() << 47));
+    let hs: Vec<BigUint> = [0x1234567u64, 0x2345671, 0x3456712, 0x4567123, 0x5671234, 0x6712345].iter().map(|b| f.pow(&u(*b), &(BigUint::one() << 47))).collect();
     exps.par_iter()
-        .map(|&e| {
+        .flat_map(|&(e, nh)| {
             let ge = f.pow(&g, &BigUint::from(e));
-            (f.inv(&f.mul(&ge, &h)).unwrap(), e)
+            hs[..nh].iter().map(|h| (f.inv(&f.mul(&ge, h)).unwrap(), e)).collect::<Vec<_>>()
         })
         .collect()
 }
@@ -289,6 +296,16 @@ pub fn points_by_intermediate(dc: &Decaf) -> Vec<(Pt, &'static str)> {
             for v in poly::roots(f, &eq) {
                 for p in point_from_v(dc, &v) {
                     cands.push((p, "u1"));
+                }
+            }
+            // the encoder's inverse-square-root argument for the Z = 1 representative:
+            // u1 (a-d) x^2 = -(a-d) (v-1)^3/(1+dv)^2 = t  =>  (a-d)(v-1)^3 + t (1+dv)^2 = 0
+            let amd = f.sub(&dc.c.a, d);
+            let opdv = lin(one.clone(), d.clone());
+            let eq = poly::add(f, &poly::scale(f, &poly::mul(f, &poly::mul(f, &vm1, &vm1), &vm1), &amd), &poly::scale(f, &poly::mul(f, &opdv, &opdv), t));
+            for v in poly::roots(f, &eq) {
+                for p in point_from_v(dc, &v) {
+                    cands.push((p, "encoder isqrt argument"));
                 }
             }
             // T = x y = t : T^2 = x^2 y^2 = v (v-1)/(1+dv)  =>  v^2 - v - t^2 (1 + d v) = 0
